@@ -4,19 +4,9 @@
 use vstd::prelude::*;
 verus! {
 //@include inc/c03_sighash_env.rs
+//@include inc/c03_cache_assumed.rs
 
 // ---- environment specific to the taproot message -------------------------------------------------------------------
-/// std::borrow::Borrow, restated: `bview` is the borrowed value (ASSUMED contract on std; the crate uses T = TxOut / &TxOut)
-pub trait Borrow<B> {
-    spec fn bview(&self) -> B;
-    fn borrow(&self) -> (r: &B) ensures *r == self.bview();
-}
-impl Borrow<TxOut> for TxOut {
-    open spec fn bview(&self) -> TxOut { *self }
-    fn borrow(&self) -> (r: &TxOut) { self }
-}
-pub open spec fn spent_of<T: Borrow<TxOut>>(s: Seq<T>) -> Seq<TxOut> { s.map_values(|t: T| t.bview()) }
-
 //@extract file=src/sighash.rs item="pub enum Error"
 //@end
 impl vstd::std_specs::convert::FromSpecImpl<encode::Error> for Error {
@@ -68,14 +58,6 @@ impl<T> Prevouts<'_, T> where T: Borrow<TxOut> {
 }
 pub open spec fn prev_of<T: Borrow<TxOut>>(p: Prevouts<T>, idx: int) -> TxOut {
     match p { Prevouts::One(_, o) => o.bview(), Prevouts::All(s) => s@[idx].bview() }
-}
-
-impl<'t> SighashCache<'t> {
-    /// ASSUMED (get_or_insert_with + closure, as for common_cache/segwit_cache in the shared environment)
-    #[verifier::external_body]
-    fn taproot_cache<T: Borrow<TxOut>>(&mut self, prevouts: &[T]) -> (r: &TaprootCache)
-        ensures taproot_cache_rel(*old(self), *final(self), *r, spent_of(prevouts@)), final(self).taproot_cache == Some(*r)
-    { unimplemented!() }
 }
 
 // ---- specification: Elements BIP341 signing message (doc/taproot-sighash in Elements; property C03) -------------------
